@@ -4,6 +4,7 @@
 // subtag sequence `t : Seq<Seq<u8>>`.
 // =====================================================================================
 pub use unic_langid_impl::vspec::*;
+pub use vstd::std_specs::iter::IteratorSpec;
 
 pub assume_specification[ u8::is_ascii_alphabetic ](c: &u8) -> (r: bool) ensures r == alpha(*c);
 pub assume_specification[ u8::is_ascii_digit ](c: &u8) -> (r: bool) ensures r == digit(*c);
@@ -478,4 +479,142 @@ pub proof fn lemma_insert_multiset<B>(s: Seq<B>, j: int, x: B)
         assert(t.contains(x)) by { assert(t[j] == x); }
         assert(t.to_multiset().count(x) > 0);
     }
+}
+
+// ---------------------------------------------------------------------------------------
+// C04: serialisation specs of the extension types
+// ---------------------------------------------------------------------------------------
+pub open spec fn lit_x() -> Seq<u8> { seq![0x2du8, 0x78u8] }
+pub open spec fn lit_u() -> Seq<u8> { seq![0x2du8, 0x75u8] }
+pub open spec fn lit_t() -> Seq<u8> { seq![0x2du8, 0x74u8] }
+pub open spec fn x_ser(v: Seq<Seq<u8>>) -> Seq<u8> { if v.len() == 0 { Seq::empty() } else { lit_x() + dash_join(v) } }
+
+/// "-k1-v-v-k2-v..." for the listed keys, in the listed order
+pub open spec fn kv_ser(keys: Seq<tinystr::TinyAsciiStr<4>>, m: Map<tinystr::TinyAsciiStr<4>, Seq<Seq<u8>>>) -> Seq<u8>
+    decreases keys.len()
+{
+    if keys.len() == 0 { Seq::empty() }
+    else { kv_ser(keys.drop_last(), m) + dash() + text(keys.last()) + dash_join(m[keys.last()]) }
+}
+/// the keys of a map in strictly increasing (byte-wise lexicographic) order
+pub open spec fn is_sorted_keys(keys: Seq<tinystr::TinyAsciiStr<4>>, m: Map<tinystr::TinyAsciiStr<4>, Seq<Seq<u8>>>) -> bool {
+    &&& strictly_sorted(texts::<4>(keys))
+    &&& forall|k: tinystr::TinyAsciiStr<4>| keys.contains(k) <==> m.contains_key(k)
+}
+pub open spec fn sorted_keys(m: Map<tinystr::TinyAsciiStr<4>, Seq<Seq<u8>>>) -> Seq<tinystr::TinyAsciiStr<4>> {
+    choose|keys: Seq<tinystr::TinyAsciiStr<4>>| is_sorted_keys(keys, m)
+}
+pub open spec fn u_ser(v: UView) -> Seq<u8> {
+    if v.attrs.len() == 0 && v.kw == Map::<tinystr::TinyAsciiStr<4>, Seq<Seq<u8>>>::empty() { Seq::empty() }
+    else { lit_u() + dash_join(v.attrs) + kv_ser(sorted_keys(v.kw), v.kw) }
+}
+pub open spec fn t_ser(v: TView) -> Seq<u8> {
+    if !v.has_lang && v.fields == Map::<tinystr::TinyAsciiStr<4>, Seq<Seq<u8>>>::empty() { Seq::empty() }
+    else { lit_t() + (if v.has_lang { dash() + lid_ser(v.lang) } else { Seq::empty() }) + kv_ser(sorted_keys(v.fields), v.fields) }
+}
+
+pub open spec fn sorted_pairs<'a, V>(s: Seq<(&'a tinystr::TinyAsciiStr<4>, &'a V)>) -> bool {
+    forall|i: int, j: int| 0 <= i < j < s.len() ==> ord_lt(*(#[trigger] s[i]).0, *(#[trigger] s[j]).0)
+}
+/// ASSUMED std contract: BTreeMap iteration yields the keys in strictly increasing `Ord` order
+pub broadcast proof fn axiom_btree_iter_sorted<'a, V>(it: std::collections::btree_map::Iter<'a, tinystr::TinyAsciiStr<4>, V>)
+    ensures sorted_pairs(#[trigger] it.remaining()),
+{ admit(); }
+
+/// a strictly sorted sequence is determined by its set of elements
+pub proof fn lemma_strict_sorted_unique(a: Seq<Seq<u8>>, b: Seq<Seq<u8>>)
+    requires
+        strictly_sorted(a), strictly_sorted(b),
+        forall|x: Seq<u8>| a.contains(x) <==> b.contains(x),
+    ensures a == b,
+    decreases a.len(),
+{
+    if a.len() == 0 {
+        if b.len() > 0 { assert(b.contains(b[0])); }
+        assert(a =~= b);
+    } else if b.len() == 0 {
+        assert(a.contains(a[0]));
+    } else {
+        let la = a.last();
+        let lb = b.last();
+        assert(a.contains(la));
+        assert(b.contains(la));
+        assert(b.contains(lb));
+        assert(a.contains(lb));
+        let i = choose|i: int| 0 <= i < b.len() && b[i] == la;
+        let j = choose|j: int| 0 <= j < a.len() && a[j] == lb;
+        // la <= lb (la occurs in b, whose maximum is lb) and lb <= la
+        if i < b.len() - 1 { assert(lex_lt(b[i], b[b.len() - 1])); }
+        if j < a.len() - 1 { assert(lex_lt(a[j], a[a.len() - 1])); }
+        if la != lb {
+            lemma_lex_le_antisym(la, lb);
+        }
+        assert(la == lb);
+        let a2 = a.drop_last();
+        let b2 = b.drop_last();
+        assert forall|x: Seq<u8>| a2.contains(x) <==> b2.contains(x) by {
+            if a2.contains(x) {
+                let k = choose|k: int| 0 <= k < a2.len() && a2[k] == x;
+                assert(a[k] == x);
+                assert(lex_lt(a[k], a[a.len() - 1]));
+                assert(a.contains(x));
+                let m = choose|m: int| 0 <= m < b.len() && b[m] == x;
+                assert(m < b.len() - 1);
+                assert(b2[m] == x);
+            }
+            if b2.contains(x) {
+                let k = choose|k: int| 0 <= k < b2.len() && b2[k] == x;
+                assert(b[k] == x);
+                assert(lex_lt(b[k], b[b.len() - 1]));
+                assert(b.contains(x));
+                let m = choose|m: int| 0 <= m < a.len() && a[m] == x;
+                assert(m < a.len() - 1);
+                assert(a2[m] == x);
+            }
+        }
+        assert(strictly_sorted(a2)) by {
+            assert forall|p: int, q: int| 0 <= p < q < a2.len() implies lex_lt(#[trigger] a2[p], #[trigger] a2[q]) by { assert(lex_lt(a[p], a[q])); }
+        }
+        assert(strictly_sorted(b2)) by {
+            assert forall|p: int, q: int| 0 <= p < q < b2.len() implies lex_lt(#[trigger] b2[p], #[trigger] b2[q]) by { assert(lex_lt(b[p], b[q])); }
+        }
+        lemma_strict_sorted_unique(a2, b2);
+        assert(a =~= a2.push(la));
+        assert(b =~= b2.push(lb));
+    }
+}
+
+/// any strictly sorted key sequence covering the map's domain IS sorted_keys(m)
+pub proof fn lemma_sorted_keys_unique(keys: Seq<tinystr::TinyAsciiStr<4>>, m: Map<tinystr::TinyAsciiStr<4>, Seq<Seq<u8>>>)
+    requires is_sorted_keys(keys, m),
+    ensures keys == sorted_keys(m),
+{
+    broadcast use axiom_text_injective;
+    let sk = sorted_keys(m);
+    assert(is_sorted_keys(sk, m));
+    lemma_texts_contains_all::<4>();
+    assert forall|x: Seq<u8>| texts::<4>(keys).contains(x) <==> texts::<4>(sk).contains(x) by {
+        if texts::<4>(keys).contains(x) {
+            let i = choose|i: int| 0 <= i < keys.len() && texts::<4>(keys)[i] == x;
+            assert(keys.contains(keys[i]));
+            assert(sk.contains(keys[i]));
+        }
+        if texts::<4>(sk).contains(x) {
+            let i = choose|i: int| 0 <= i < sk.len() && texts::<4>(sk)[i] == x;
+            assert(sk.contains(sk[i]));
+            assert(keys.contains(sk[i]));
+        }
+    }
+    lemma_strict_sorted_unique(texts::<4>(keys), texts::<4>(sk));
+    assert(keys.len() == sk.len()) by { assert(texts::<4>(keys).len() == texts::<4>(sk).len()); }
+    assert forall|i: int| 0 <= i < keys.len() implies keys[i] == sk[i] by {
+        assert(texts::<4>(keys)[i] == texts::<4>(sk)[i]);
+    }
+    assert(keys =~= sk);
+}
+
+pub proof fn lemma_kv_ser_push(keys: Seq<tinystr::TinyAsciiStr<4>>, k: tinystr::TinyAsciiStr<4>, m: Map<tinystr::TinyAsciiStr<4>, Seq<Seq<u8>>>)
+    ensures kv_ser(keys.push(k), m) == kv_ser(keys, m) + dash() + text(k) + dash_join(m[k]),
+{
+    assert(keys.push(k).drop_last() =~= keys);
 }
